@@ -218,12 +218,16 @@ impl SearchQuery {
     fn slice(&self, mut ids: Vec<DbId>) -> Result<Vec<DbId>, DbError> {
         Ok(match (self.limit, self.offset) {
             (0, 0) => ids,
-            (0, _) => ids[self.offset as usize..].to_vec(),
+            (0, _) => ids.into_iter().skip(self.offset as usize).collect(),
             (_, 0) => {
                 ids.truncate(self.limit as usize);
                 ids
             }
-            (_, _) => ids[self.offset as usize..(self.offset + self.limit) as usize].to_vec(),
+            (_, _) => ids
+                .into_iter()
+                .skip(self.offset as usize)
+                .take(self.limit as usize)
+                .collect(),
         })
     }
 
